@@ -21,6 +21,23 @@ CHECKS = {
             "Histories of sets, rand_mode toggles, rangelist/list edits and five call kinds over a two-object world with sub-objects; "
             "TLC checks after every call that every path outside UsedRand(call) in all objects is unchanged and that probe tables "
             "equal Sol computed from the current non-random values and container contents.", "6 C03"),
+    "C05": ("TLA+ trace validation: SoftAccept (maximality + existence of a priority-respecting greedy order) decided by TLC over the enumerated Sol",
+            "For every recorded call of the soft-constraint families TLC enumerates Sol(hard) (<=12 bits), classifies every applicable "
+            "soft constraint (with its if/else/implies guards) as kept or violated at the returned values, and requires that no "
+            "violated one is jointly satisfiable with the kept ones and that the kept set is the greedy result of some linear "
+            "extension of 'later in the block wins, inline over class-level'; never-fatal is the C02 clause on the hard part.", "6 C05"),
+    "C06": ("TLA+ trace validation: truth table of every call with inline/dynamic terms, and plain truth tables of all live instances afterwards",
+            "Histories over populations of instances of one class; dynamic-constraint references are Boolean terms whose meaning in "
+            "the spec is HoldsBlock on the referent object; every call's table and every later plain table must equal Sol, and "
+            "nonrand_frozen covers writes to bystander instances.", "6 C06"),
+    "C07": ("TLA+ trace validation: pin-probe truth tables after every constraint_mode toggle vs Sol over most-derived enabled blocks per instance",
+            "Toggle/construct/call histories over a three-level class hierarchy with overridden block names and holder objects with "
+            "nested and list-element instances; the spec keeps one enabled flag per (instance, block name) and resolves the "
+            "most-derived block by name; each table must equal Sol.", "6 C07"),
+    "C16": ("TLA+ trace validation with fault injection: idle_after on every event + remainder of the trace accepted from the unchanged state",
+            "User exceptions injected at pre/post callbacks of any composite, in with-block bodies and in constraint bodies during "
+            "construction, and unsatisfiable calls, followed by constructions, calls and truth tables; every event logs the five "
+            "construction stacks plus leftover override nodes and solver handles, which TLC requires to be zero.", "6 C16"),
     "C10": ("TLA+ trace validation (Trace_VscCov): TLC recomputes the declarative bin partition and every counter after every sample",
             "Random bin specifications over types of 2..8 bits, each sampled with every value of the type plus repeats and gated-off "
             "samples; every event logs all regular/ignore/illegal counters and TLC requires them to equal the counters of the "
